@@ -20,7 +20,7 @@ ANCHORS = ['lib/python/treadmill/utils.py', 'lib/python/treadmill/appcfg/__init_
            'lib/python/treadmill/trace/app/zk.py', 'lib/python/treadmill/zkutils.py',
            'lib/python/treadmill/admin/_ldap.py']
 PREAMBLE = ('From Coq Require Import ZArith List String.\nImport ListNotations.\n'
-            'From TM Require Import Codec.BaseN Codec.Dec Codec.Event Codec.Rule Codec.C15Run.\nOpen Scope Z_scope.\n')
+            'From TM Require Import Codec.BaseN Codec.Dec Codec.Event Codec.Rule Codec.Json Codec.Ldap Codec.C15Run.\nOpen Scope Z_scope.\n')
 RUN_FN = 'run_case'
 
 E_VALUE, E_INDEX, E_ZERODIV, E_TYPE, E_OTHER = 1, 2, 3, 4, 5
@@ -1088,6 +1088,827 @@ def oracle_rule_dec(case, o):
     return None
 
 
+# ------------------------------------------------------------------ 4. ZooKeeper payloads
+JKEYS = ['', 'a', 'b', 'name', 'memory', 'cpu', 'a b', 'é', 'k"q', 'k\\b', 'A', 'aa', 'ab', '10', '9', '\n', 'ключ', '_id']
+JSTRS = ['', 'x', 'proid.app#0000000001', 'tab\there', 'nl\n', 'quote"', 'back\\slash', '/', '\x00\x1f\x7f', 'é',
+         'λ日本', '1', 'null', 'true', '퟿', '\x08\x0c\r']
+
+
+def gen_jvalue(rng, depth):
+    r = rng.random()
+    if depth <= 0 or r < 0.45:
+        k = rng.randrange(5)
+        if k == 0:
+            return None
+        if k == 1:
+            return rng.random() < 0.5
+        if k == 2:
+            return rng.choice([0, 1, -1, 10, 255, -256, 2 ** 31, -2 ** 63, 10 ** 25, rng.randint(-10 ** 6, 10 ** 6)])
+        return rng.choice(JSTRS + [rand_str(rng, NAMECH + ' "\\', 0, 8)])
+    if r < 0.7:
+        return [gen_jvalue(rng, depth - 1) for _ in range(rng.randint(0, 4))]
+    d = {}
+    for _ in range(rng.randint(0, 4)):
+        d[rng.choice(JKEYS)] = gen_jvalue(rng, depth - 1)
+    return d
+
+
+def mutate_jvalue(rng, v):
+    """a value near v (injectivity): bool<->int, '1'<->1, None<->'null', reorder nothing"""
+    if isinstance(v, bool):
+        return int(v)
+    if isinstance(v, int):
+        return rng.choice([str(v), v + 1, v == 1])
+    if v is None:
+        return rng.choice(['null', '', [], {}])
+    if isinstance(v, str):
+        return rng.choice([v + ' ', [v], None if v == 'null' else v])
+    if isinstance(v, list):
+        if not v:
+            return {}
+        i = rng.randrange(len(v))
+        return v[:i] + [mutate_jvalue(rng, v[i])] + v[i + 1:]
+    if not v:
+        return []
+    k = rng.choice(list(v))
+    d = dict(v)
+    d[k] = mutate_jvalue(rng, v[k])
+    return d
+
+
+def gen_zk(rng, malformed):
+    r = rng.random()
+    if r < 0.08:
+        d = {'t': 'none'}
+    elif r < 0.14:
+        d = {'t': 'bytes', 'b': rng.choice(['', 'raw', '{"a": 1}', '[1, 2', '123', 'x: 1'])}
+    elif r < 0.22:
+        d = {'t': 'str', 's': rng.choice(['', 'abc', '123', 'true', '{}', '"quoted"', ' [1] ', 'a: b', 'null'])}
+    else:
+        v = gen_jvalue(rng, 3)
+        if (rng.random() < 0.8 and not isinstance(v, (dict, list))) or v is None or isinstance(v, str):
+            v = rng.choice([[v], {'k': v}])     # a top-level None / str takes the other branches of _payload
+        v2 = mutate_jvalue(rng, v) if rng.random() < 0.7 else v
+        d = {'t': 'obj', 'v': v, 'v2': v if v2 is None or isinstance(v2, str) else v2}
+    return {'kind': 'zk', 'data': d}
+
+
+class _ZkGet:
+    def __init__(self, payload):
+        self.payload = payload
+
+    def get(self, _path, watch=None):
+        return self.payload, 'metadata'
+
+
+def _zk_decode(payload):
+    zkutils = mod('treadmill.zkutils')
+    yamlw = mod('treadmill.yamlwrapper')
+    from unittest import mock
+    used = []
+    orig = yamlw.load
+
+    def load(*a, **kw):
+        used.append(1)
+        return orig(*a, **kw)
+    with mock.patch.object(yamlw, 'load', load):
+        r = call(zkutils.get_with_metadata, _ZkGet(payload), '/some/node')
+    if r[0] == 'ok':
+        r = ['ok', r[1][0]]
+    return r, bool(used)
+
+
+def _zdata(d):
+    if d['t'] == 'none':
+        return None
+    if d['t'] == 'bytes':
+        return d['b'].encode('ascii')
+    if d['t'] == 'str':
+        return d['s']
+    return d['v']
+
+
+def _jsonable(v):
+    """decoded object -> JSON-able with floats / bytes marked"""
+    if isinstance(v, float):
+        return {'__float__': repr(v)}
+    if isinstance(v, bytes):
+        return {'__bytes__': list(v)}
+    if isinstance(v, list):
+        return [_jsonable(x) for x in v]
+    if isinstance(v, dict):
+        return {'__dict__': [[k, _jsonable(x)] for k, x in v.items()]}
+    if v is None or isinstance(v, (bool, int, str)):
+        return v
+    return {'__other__': repr(v)}
+
+
+def impl_zk(case):
+    zkutils = mod('treadmill.zkutils')
+    d = case['data']
+    p = call(zkutils._payload, _zdata(d))
+    if p[0] != 'ok':
+        return {'payload': p}
+    o = {'payload': ['ok', list(p[1])]}
+    dec, used_yaml = _zk_decode(p[1])
+    o['yaml'] = used_yaml
+    o['dec'] = ['ok', _jsonable(dec[1])] if dec[0] == 'ok' else dec
+    if d['t'] == 'obj':
+        o['strict_equal'] = dec[0] == 'ok' and strict_eq(dec[1], d['v'])
+        p2 = call(zkutils._payload, d['v2'])
+        o['same_payload'] = p2 == p
+    return o
+
+
+def strict_eq(a, b):
+    if type(a) is not type(b):
+        return False
+    if isinstance(a, list):
+        return len(a) == len(b) and all(strict_eq(x, y) for x, y in zip(a, b))
+    if isinstance(a, dict):
+        return set(a) == set(b) and all(strict_eq(a[k], b[k]) for k in a)
+    return a == b
+
+
+def f_value(v):
+    """flatten a decoded (jsonable-marked) value like C15Run.fvalue; None if outside the model's universe"""
+    if v is None:
+        return [0]
+    if isinstance(v, bool):
+        return [1, 1 if v else 0]
+    if isinstance(v, int):
+        return [2, v]
+    if isinstance(v, str):
+        return [3] + fstr(v)
+    if isinstance(v, list):
+        out = [4, len(v)]
+        for x in v:
+            f = f_value(x)
+            if f is None:
+                return None
+            out += f
+        return out
+    if isinstance(v, dict) and '__dict__' in v:
+        out = [5, len(v['__dict__'])]
+        for k, x in v['__dict__']:
+            f = f_value(x)
+            if f is None or not isinstance(k, str):
+                return None
+            out += fstr(k) + f
+        return out
+    return None
+
+
+def _chars_ok(v):
+    if isinstance(v, str):
+        return all(ord(c) < 0xD800 for c in v)
+    if isinstance(v, list):
+        return all(_chars_ok(x) for x in v)
+    if isinstance(v, dict):
+        return all(isinstance(k, str) and _chars_ok(k) and _chars_ok(x) for k, x in v.items())
+    return v is None or isinstance(v, (bool, int))
+
+
+def flat_decoded(o, payload_bytes):
+    if o['dec'][0] != 'ok':
+        return None
+    if o['yaml']:
+        return [0, 0] if len(payload_bytes) == 0 and o['dec'][1] is None else ([1] if payload_bytes else None)
+    f = f_value(o['dec'][1])
+    return None if f is None else [0] + f
+
+
+def flat_zk(case, o):
+    d = case['data']
+    if o['payload'][0] != 'ok' or (d['t'] == 'obj' and not _chars_ok(d['v'])):
+        return None
+    pb = o['payload'][1]
+    if any(b > 127 for b in pb):
+        return None
+    fd = flat_decoded(o, pb)
+    return None if fd is None else [0, len(pb)] + pb + fd
+
+
+def t_value(v):
+    if v is None:
+        return 'VNull'
+    if isinstance(v, bool):
+        return '(VBool %s)' % G.b(v)
+    if isinstance(v, int):
+        return '(VInt %s)' % G.z(v)
+    if isinstance(v, str):
+        return '(VStr %s)' % t_str(v)
+    if isinstance(v, list):
+        return '(VList %s)' % G.lst([t_value(x) for x in v])
+    return '(VDict %s)' % G.lst(['(%s, %s)' % (t_str(k), t_value(x)) for k, x in v.items()])
+
+
+def term_zk(case, o):
+    d = case['data']
+    if d['t'] == 'none':
+        return '(CZk ZNone)'
+    if d['t'] == 'bytes':
+        return '(CZk (ZBytes %s))' % t_str(d['b'])
+    if d['t'] == 'str':
+        return '(CZk (ZStr %s))' % t_str(d['s'])
+    return '(CZk (ZObj %s))' % t_value(d['v'])
+
+
+def oracle_zk(case, o):
+    d = case['data']
+    if o['payload'][0] != 'ok':
+        return ('zk-payload-encode-fails', '_payload raises %s' % o['payload'][2]) if d['t'] in ('none', 'obj') else None
+    pb = bytes(o['payload'][1])
+    if d['t'] == 'none':
+        if pb != b'' or o['dec'] != ['ok', None]:
+            return ('zk-none-payload', 'None is stored as %r and read back as %r' % (pb, o['dec']))
+        return None
+    if d['t'] != 'obj' or not _chars_ok(d['v']):
+        return None
+    out = []
+    if pb == b'':
+        out.append(('zk-payload-collision', 'object %r is stored as the empty payload (which means None)' % (d['v'],)))
+    if not o['strict_equal']:
+        out.append(('zk-payload-roundtrip', 'object %r is stored as %r and read back as %r' % (d['v'], pb, o['dec'])))
+    if o['same_payload'] and _chars_ok(d['v2']) and not strict_eq(d['v'], d['v2']):
+        out.append(('zk-payload-collision', 'objects %r and %r share the payload %r' % (d['v'], d['v2'], pb)))
+    return out or None
+
+
+def gen_zk_dec(rng, malformed):
+    import json as _json
+    v = gen_jvalue(rng, 3)
+    if not isinstance(v, (dict, list)):
+        v = [v]
+    s = _json.dumps(v, sort_keys=rng.random() < 0.5)
+    m = rng.randrange(16)
+    if m == 0:
+        s = s.replace(', ', rng.choice([',', ' , ', ',\n\t', ',\r ']))
+    elif m == 1:
+        s = s.replace(': ', rng.choice([':', ' : ', ':\n']))
+    elif m == 2:
+        s = rng.choice([' ', '\n', '\t ']) + s + rng.choice([' ', '\r\n', ''])
+    elif m == 3:
+        s = s[:-1] + rng.choice([',', ', ', ',]', ',}']) + s[-1:]
+    elif m == 4:
+        i = rng.randrange(len(s) + 1)
+        s = s[:i] + rng.choice(['0', '-', '.5', 'e1', '"', '\\', ',', ' ', '1.5', 'NaN', '1e5', '1E-2', '\\u00E9',
+                                '\\ud83d\\ude00', '\\/', '\t', "'", 'x']) + s[i:]
+    elif m == 5:
+        s = s[:rng.randrange(len(s) + 1)]
+    elif m == 6:
+        s = s + rng.choice(['x', ']', ' []', '0', ','])
+    elif m == 7:
+        s = '{"a": 1, "b": [2, {"a": null}], "a": %s, "c": 3, "b": true}' % rng.choice(['"x"', '0', '[]', '-0', '007'])
+    elif m == 8:
+        s = rng.choice(['', ' ', 'null', 'true', 'false', 'nul', 'tru', 'True', 'None', '-', '-0', '-01', '01', '0x10',
+                        '1.', '.5', '1e', '1e+', '-Infinity', 'Infinity', 'NaN', 'Nan', '- 1', '[-]', '"\x7f"',
+                        '"a\tb"', '["\\x"]', '[1 2]', '{a: 1}', "{'a': 1}", '{"a" 1}', '{"a": }', '{1: 2}',
+                        '[[[[[[[[[[]]]]]]]]]]', '"unterminated', '"\\u12"', '"\\u12G4"', '"\\uD7FF"', '"\\ud800"'])
+    elif m == 9:
+        s = s.replace('\\u00', rng.choice(['\\u00', '\\U00', '\\u0'])).replace('e9', 'E9')
+    return {'kind': 'zk_dec', 'payload': s}
+
+
+def impl_zk_dec(case):
+    pb = case['payload'].encode('ascii', 'replace')
+    dec, used_yaml = _zk_decode(pb)
+    return {'yaml': used_yaml, 'dec': ['ok', _jsonable(dec[1])] if dec[0] == 'ok' else ['err', dec[1], dec[2]],
+            'payload': list(pb)}
+
+
+def flat_zk_dec(case, o):
+    if _re.search(r'\\u[dD][89a-fA-F]', case['payload']):
+        return None          # surrogate escapes are outside the model
+    if _re.search(r'NaN|Infinity|[0-9][.eE]', case['payload']):
+        return None          # floats are outside the model (it answers "unmodelled" as soon as it meets one)
+    if o['dec'][0] != 'ok':
+        return [1] if o['yaml'] and o['payload'] else None       # yaml.load raised: still the YAML fallback
+    return flat_decoded(o, o['payload'])
+
+
+def oracle_zk_dec(case, o):
+    """what was decoded as JSON re-encodes to a payload that decodes to the same object"""
+    if o['dec'][0] != 'ok' or o['yaml']:
+        return None
+    zkutils = mod('treadmill.zkutils')
+
+    def back(v):
+        if isinstance(v, dict) and '__dict__' in v:
+            return {k: back(x) for k, x in v['__dict__']}
+        if isinstance(v, list):
+            return [back(x) for x in v]
+        return v
+    f = f_value(o['dec'][1])
+    if f is None:
+        return None
+    v = back(o['dec'][1])
+    if not isinstance(v, (dict, list)) or not _chars_ok(v):
+        return None
+    again, _y = _zk_decode(zkutils._payload(v))
+    if again[0] != 'ok' or not strict_eq(again[1], v):
+        return ('zk-payload-roundtrip', 'decoded object %r does not survive a store/read cycle: %r' % (v, again))
+    return None
+
+
+# ------------------------------------------------------------------ 5. LDAP entries
+LDAP_SCHEMAS = [('Application', a) for a in ('_schema', '_svc_schema', '_svc_restart_schema', '_endpoint_schema',
+                                             '_environ_schema', '_affinity_schema', '_vring_schema',
+                                             '_vring_rule_schema', 'schema()')] + \
+               [('CellAllocation', a) for a in ('_schema', '_assign_schema', 'schema()')] + \
+               [('Partition', a) for a in ('_schema', '_limit_schema', 'schema()')]
+LSTRS = ['', 'x', '10%', '2G', 'proid.app', 'native:foo', 'a b', 'é', 'TRUE', 'false', '0', 'tm-x;y', '12']
+
+
+def ldap_schema(cname, aname):
+    m = mod('treadmill.admin._ldap')
+    cls = getattr(m, cname)
+    return cls.schema() if aname == 'schema()' else getattr(cls, aname)
+
+
+def _tcode(t):
+    if t is str:
+        return 's'
+    if t is int:
+        return 'i'
+    if t is bool:
+        return 'b'
+    if t is dict:
+        return 'd'
+    if isinstance(t, list):
+        return 'ls' if t[0] is str else 'li'
+    return None
+
+
+def gen_fval(rng, code, malformed):
+    r = rng.random()
+    if r < 0.1:
+        return {'n': None}
+    if code == 's':
+        if r < 0.2:
+            return {'i': rng.randint(-5, 10 ** 6)}          # coerced by six.text_type
+        return {'s': rng.choice(LSTRS + [rand_str(rng, NAMECH, 0, 8)])}
+    if code == 'i':
+        return {'i': rng.choice([0, 1, -1, 5, 60, 8080, 2 ** 40, rng.randint(-100, 10 ** 5)])}
+    if code == 'b':
+        return {'b': rng.random() < 0.5}
+    if code == 'ls':
+        return {'ls': [rng.choice(LSTRS) for _ in range(rng.randint(0, 3))]}
+    if code == 'li':
+        return {'li': [rng.randint(-3, 300) for _ in range(rng.randint(0, 3))]}
+    d = gen_jvalue(rng, 2)
+    return {'d': d if isinstance(d, dict) else {'k': d}}
+
+
+def gen_ldap(rng, malformed):
+    cname, aname = LDAP_SCHEMAS[rng.randrange(len(LDAP_SCHEMAS))]
+    sch = ldap_schema(cname, aname)
+    o = []
+    seen = set()
+    for _a, f, t in sch:
+        if f is None or f in seen or rng.random() < 0.35:
+            continue
+        seen.add(f)
+        o.append([f, gen_fval(rng, _tcode(t), malformed)])
+    if rng.random() < 0.15:
+        o.append(['not_in_schema', {'s': 'x'}])
+    rng.shuffle(o)
+    return {'kind': 'ldap', 'cls': cname, 'schema': aname, 'obj': o}
+
+
+def _py_fval(tv):
+    (k, v), = tv.items()
+    return v
+
+
+def _py_obj(o):
+    return {k: _py_fval(tv) for k, tv in o}
+
+
+def _tag_fval(v):
+    if v is None:
+        return {'n': None}
+    if isinstance(v, bool):
+        return {'b': v}
+    if isinstance(v, int):
+        return {'i': v}
+    if isinstance(v, str):
+        return {'s': v}
+    if isinstance(v, dict):
+        return {'d': _jsonable(v)}
+    if isinstance(v, list):
+        if all(isinstance(x, str) for x in v):
+            return {'ls': v}
+        if all(isinstance(x, int) and not isinstance(x, bool) for x in v):
+            return {'li': v}
+    return {'other': repr(v)}
+
+
+def _tag_entry(e):
+    return [[k, [x if isinstance(x, (str, bool)) else {'other': repr(x)} for x in vs]] for k, vs in e.items()]
+
+
+def impl_ldap(case):
+    m = mod('treadmill.admin._ldap')
+    sch = ldap_schema(case['cls'], case['schema'])
+    enc = call(m._dict_2_entry, _py_obj(case['obj']), sch)
+    if enc[0] != 'ok':
+        return {'enc': enc}
+    o = {'enc': ['ok', _tag_entry(enc[1])]}
+    dec = call(lambda: m._entry_2_dict(m._remove_empty(enc[1]), sch))
+    o['dec'] = ['ok', [[k, _tag_fval(v)] for k, v in dec[1].items()]] if dec[0] == 'ok' else dec
+    return o
+
+
+def f_eval(x):
+    if isinstance(x, bool):
+        return [3, 1 if x else 0]
+    if isinstance(x, str):
+        return [1] + fstr(x)
+    return None
+
+
+def f_entry(te):
+    out = [len(te)]
+    for k, vs in te:
+        out += fstr(k) + [len(vs)]
+        for x in vs:
+            f = f_eval(x)
+            if f is None:
+                return None
+            out += f
+    return out
+
+
+def f_fval(tv):
+    (k, v), = tv.items()
+    if k == 'n':
+        return [0]
+    if k == 's':
+        return [1] + fstr(v)
+    if k == 'i':
+        return [2, v]
+    if k == 'b':
+        return [3, 1 if v else 0]
+    if k == 'ls':
+        return [4, len(v)] + [y for x in v for y in [1] + fstr(x)]
+    if k == 'li':
+        return [4, len(v)] + [y for x in v for y in [2, x]]
+    if k == 'd':
+        f = f_value(v)
+        return None if f is None else [5] + f
+    return None
+
+
+def f_obj(to):
+    out = [len(to)]
+    for k, tv in to:
+        f = f_fval(tv)
+        if f is None:
+            return None
+        out += fstr(k) + f
+    return out
+
+
+def flat_ldap(case, o):
+    if o['enc'][0] != 'ok':
+        return None
+    fe = f_entry(o['enc'][1])
+    if fe is None:
+        return None
+    if o['dec'][0] != 'ok':
+        return [0] + fe + [o['dec'][1]]
+    fo = f_obj(o['dec'][1])
+    return None if fo is None else [0] + fe + [0] + fo
+
+
+def t_fval(tv):
+    (k, v), = tv.items()
+    if k == 'n':
+        return 'FNone'
+    if k == 's':
+        return '(FStr %s)' % t_str(v)
+    if k == 'i':
+        return '(FInt %s)' % G.z(v)
+    if k == 'b':
+        return '(FBool %s)' % G.b(v)
+    if k == 'ls':
+        return '(FStrs %s)' % G.lst([t_str(x) for x in v])
+    if k == 'li':
+        return '(FInts %s)' % G.zlist(v)
+    return '(FDict %s)' % G.lst(['(%s, %s)' % (t_str(kk), t_value(x)) for kk, x in v.items()])
+
+
+def t_obj(o):
+    return G.lst(['(%s, %s)' % (t_str(k), t_fval(tv)) for k, tv in o])
+
+
+def t_entry(te):
+    return G.lst(['(%s, %s)' % (t_str(k), G.lst(['(EBool %s)' % G.b(x) if isinstance(x, bool) else '(EStr %s)' % t_str(x)
+                                                for x in vs])) for k, vs in te])
+
+
+def _sname(case):
+    return '%s.%s' % (case['cls'], case['schema'])
+
+
+def ldap_expected(code, tv):
+    """Python restatement of Codec/Ldap.v expected_field: what obj'[f] must be, None = absent"""
+    is_list = code in ('ls', 'li')
+    if tv is None or 'n' in tv:
+        return {'ls': []} if is_list else None
+    (k, v), = tv.items()
+    if k in ('ls', 'li'):
+        return {'ls': []} if not v else tv
+    if k == 'i' and code == 's':
+        return {'s': str(v)}
+    return tv
+
+
+def ldap_typed(code, tv):
+    (k, v), = tv.items()
+    if k == 'n':
+        return True
+    if k == 'i':
+        return code in ('i', 's')
+    if k == 'd':
+        return code == 'd' and _chars_ok(v)
+    return k == code
+
+
+def _same_fval(a, b):
+    if a is None or b is None:
+        return a is b
+    (ka, va), = a.items()
+    (kb, vb), = b.items()
+    if ka in ('ls', 'li') and kb in ('ls', 'li') and not va and not vb:
+        return True
+    if ka == 'd' and kb == 'd':
+        def back(v):
+            if isinstance(v, dict) and '__dict__' in v:
+                return {k: back(x) for k, x in v['__dict__']}
+            if isinstance(v, list):
+                return [back(x) for x in v]
+            return v
+        return strict_eq(back(va), back(vb))
+    return ka == kb and va == vb and type(va) is type(vb)
+
+
+def oracle_ldap(case, o):
+    sch = ldap_schema(case['cls'], case['schema'])
+    given = dict((k, tv) for k, tv in case['obj'])
+    rows = {}
+    for _a, f, t in sch:
+        if f is not None:
+            rows.setdefault(f, _tcode(t))
+    if not all(ldap_typed(rows[f], tv) for f, tv in given.items() if f in rows):
+        return None
+    if o['enc'][0] != 'ok':
+        return ('ldap-entry-encode-fails', '_dict_2_entry raises %s' % o['enc'][2])
+    if o['dec'][0] != 'ok':
+        return ('ldap-entry-roundtrip', '%s: object %r is stored as %r which cannot be read back: %s'
+                % (_sname(case), case['obj'], o['enc'][1], o['dec'][2]))
+    got = dict((k, tv) for k, tv in o['dec'][1])
+    bad = [f for f in rows if not _same_fval(got.get(f), ldap_expected(rows[f], given.get(f)))]
+    bad += [f for f in got if f not in rows]
+    if bad:
+        return ('ldap-entry-roundtrip', '%s: fields %r of %r read back as %r (entry %r)'
+                % (_sname(case), bad, case['obj'], o['dec'][1], o['enc'][1]))
+    return None
+
+
+def gen_ldap_dec(rng, malformed):
+    cname, aname = LDAP_SCHEMAS[rng.randrange(len(LDAP_SCHEMAS))]
+    sch = ldap_schema(cname, aname)
+    e = []
+    seen = set()
+    for a, _f, t in sch:
+        if a in seen or rng.random() < 0.4:
+            continue
+        seen.add(a)
+        code = _tcode(t)
+        if code == 'i':
+            vs = rng.choice([['5'], ['-1'], [' 7 '], ['x'], [], ['1', '2'], [True], ['1_0'], ['+3']])
+        elif code == 'b':
+            vs = rng.choice([[True], [False], ['TRUE'], ['false'], ['False'], ['0'], ['1'], [''], [], ['no']])
+        elif code == 'li':
+            vs = rng.choice([[], ['1'], ['1', '22', '-3'], ['x'], ['1', '']])
+        elif code == 'ls':
+            vs = [rng.choice(LSTRS) for _ in range(rng.randint(0, 3))]
+        elif code == 'd':
+            vs = rng.choice([['{}'], ['{"b": 1, "a": [true, null]}'], ['[1]'], ['{'], [], ['{"a": "\\u00e9"}', 'x']])
+        else:
+            vs = rng.choice([[rng.choice(LSTRS)], [], ['a', 'b'], [True]])
+        e.append([a, vs])
+    if rng.random() < 0.2:
+        e.append(['unknown-attr', ['x']])
+    rng.shuffle(e)
+    return {'kind': 'ldap_dec', 'cls': cname, 'schema': aname, 'entry': e}
+
+
+def impl_ldap_dec(case):
+    m = mod('treadmill.admin._ldap')
+    sch = ldap_schema(case['cls'], case['schema'])
+    dec = call(m._entry_2_dict, dict((k, list(vs)) for k, vs in case['entry']), sch)
+    if dec[0] != 'ok':
+        return {'dec': dec}
+    o = {'dec': ['ok', [[k, _tag_fval(v)] for k, v in dec[1].items()]]}
+    again = call(lambda: m._entry_2_dict(m._remove_empty(m._dict_2_entry(dec[1], sch)), sch))
+    o['stable'] = again[0] == 'ok' and strict_eq(again[1], dec[1])
+    return o
+
+
+def flat_ldap_dec(case, o):
+    if o['dec'][0] != 'ok':
+        return [o['dec'][1]] if o['dec'][1] in (E_VALUE, E_INDEX) else None
+    sch = ldap_schema(case['cls'], case['schema'])
+    dict_fields = {f for _a, f, t in sch if t is dict}
+    if any(k in dict_fields and 'd' not in tv for k, tv in o['dec'][1]):
+        return None      # a dict-typed attribute holding JSON that is not an object: outside the model
+    fo = f_obj(o['dec'][1])
+    return None if fo is None else [0] + fo
+
+
+def oracle_ldap_dec(case, o):
+    if o['dec'][0] != 'ok' or f_obj(o['dec'][1]) is None:
+        return None
+    sch = ldap_schema(case['cls'], case['schema'])
+    rows = {}
+    for _a, f, t in sch:
+        if f is not None:
+            rows.setdefault(f, _tcode(t))
+    if not all(ldap_typed(rows[f], tv) for f, tv in o['dec'][1] if f in rows):
+        return None
+    if not o['stable']:
+        return ('ldap-decoded-object-does-not-roundtrip', '%s: entry %r reads as %r which does not survive store + load'
+                % (_sname(case), case['entry'], o['dec'][1]))
+    return None
+
+
+# ---- _diff_entries
+DATTRS = ['cpu', 'memory', 'trait', 'app', 'service-name;tm-service-0', 'service-name;tm-service-1', 'shared-ip']
+DVALS = ['a', 'b', 'c', '10%', '', 'A', True, False, 'True']
+
+
+def gen_dentry(rng, odd):
+    e = []
+    for a in rng.sample(DATTRS, rng.randint(0, len(DATTRS))):
+        vs = [rng.choice(DVALS) for _ in range(rng.choice([0, 1, 1, 2, 3]))]
+        if not odd:
+            vs = list(dict.fromkeys(vs))
+        e.append([a.upper() if odd and rng.random() < 0.2 else a, vs])
+    return e
+
+
+def gen_diff(rng, malformed):
+    old = gen_dentry(rng, malformed)
+    new = gen_dentry(rng, malformed)
+    r = rng.random()
+    if r < 0.3 and old:          # same attribute, same value set in another order
+        a, vs = rng.choice(old)
+        new = [kv for kv in new if kv[0] != a] + [[a, list(reversed(vs))]]
+    elif r < 0.4:
+        new = [[a, list(vs)] for a, vs in old]
+    return {'kind': 'diff', 'old': old, 'new': new}
+
+
+def _apply_mods(entry, diff):
+    """a minimal LDAP modify (attribute names case-insensitive): ADD adds values, REPLACE sets, DELETE removes"""
+    e = {k.lower(): list(v) for k, v in entry.items()}
+    for attr, ops in diff.items():
+        for op, vals in ops:
+            k = attr.lower()
+            if op == 'MODIFY_ADD':
+                e[k] = e.get(k, []) + list(vals)
+            elif op == 'MODIFY_REPLACE':
+                e[k] = list(vals)
+            elif op == 'MODIFY_DELETE':
+                e.pop(k, None)
+    return e
+
+
+def impl_diff(case):
+    m = mod('treadmill.admin._ldap')
+    old = dict((k, list(v)) for k, v in case['old'])
+    new = dict((k, list(v)) for k, v in case['new'])
+    d = call(m._diff_entries, old, new)
+    if d[0] != 'ok':
+        return {'diff': d}
+    mods = [[a, op, list(vals)] for a, ops in d[1].items() for op, vals in ops]
+    after = _apply_mods(old, d[1])
+    return {'diff': ['ok', mods], 'after': [[k, v] for k, v in after.items()]}
+
+
+def flat_diff(case, o):
+    if o['diff'][0] != 'ok' or len(dict(case['old'])) != len(case['old']) or len(dict(case['new'])) != len(case['new']):
+        return None
+    out = [len(o['diff'][1])]
+    for a, op, vals in o['diff'][1]:
+        code = {'MODIFY_ADD': 0, 'MODIFY_REPLACE': 1, 'MODIFY_DELETE': 2}.get(op)
+        if code is None or not _ascii(a):
+            return None
+        out += fstr(a) + [code]
+        if code != 2:
+            out.append(len(vals))
+            for x in vals:
+                out += f_eval(x)
+    return out
+
+
+def _vset(vs):
+    return {(type(x).__name__, x) for x in vs}
+
+
+def oracle_diff(case, o):
+    keys_old, keys_new = [k for k, _ in case['old']], [k for k, _ in case['new']]
+    if any(k != k.lower() for k in keys_old + keys_new) or len(set(keys_old)) != len(keys_old) \
+            or len(set(keys_new)) != len(keys_new):
+        return None
+    if o['diff'][0] != 'ok':
+        return ('ldap-diff-fails', '_diff_entries raises %s' % o['diff'][2])
+    after, new = dict(o['after']), dict(case['new'])
+    bad = [a for a in set(after) | set(new) | set(keys_old) if _vset(after.get(a, [])) != _vset(new.get(a, []))]
+    if bad:
+        return ('ldap-diff-does-not-yield-new', 'old %r + diff %r = %r, new entry is %r (attributes %r differ)'
+                % (case['old'], o['diff'][1], o['after'], case['new'], sorted(bad)))
+    return None
+
+
+# ---- the per-class wrappers Application / CellAllocation / Partition .to_entry / .from_entry : ORACLE ONLY
+def gen_ldap_obj(rng, malformed):
+    cname = rng.choice(['Application', 'CellAllocation', 'Partition'])
+    res = {'cpu': rng.choice(['10%', '200%']), 'memory': rng.choice(['1G', '512M']), 'disk': rng.choice(['1G', '20G'])}
+    if cname == 'Application':
+        o = dict(res, _id='proid.' + rand_str(rng, LOWER, 1, 5))
+        if rng.random() < 0.7:
+            o['services'] = [{'name': n, 'command': '/bin/' + n, **({'restart': {'limit': rng.randint(0, 9), 'interval': 30}}
+                                                                     if rng.random() < 0.5 else {})}
+                             for n in rng.sample(['web', 'sshd', 'a.b', 'z'], rng.randint(0, 3))]
+        if rng.random() < 0.6:
+            o['endpoints'] = [{'name': n, 'port': rng.randint(0, 65535), **({'proto': 'udp'} if rng.random() < 0.3 else {})}
+                              for n in rng.sample(['http', 'ssh', 'x'], rng.randint(0, 3))]
+        if rng.random() < 0.5:
+            o['environ'] = [{'name': n, 'value': rng.choice(LSTRS)} for n in rng.sample(['A', 'B', 'PATH'], rng.randint(0, 3))]
+        if rng.random() < 0.4:
+            o['affinity_limits'] = {k: rng.randint(0, 5) for k in rng.sample(['server', 'rack', 'pod'], rng.randint(0, 3))}
+        if rng.random() < 0.4:
+            o['ephemeral_ports'] = {k: rng.randint(0, 9) for k in rng.sample(['tcp', 'udp'], rng.randint(0, 2))}
+        if rng.random() < 0.4:
+            o['tickets'] = rng.sample(['u@R', 'v@R'], rng.randint(0, 2))
+        if rng.random() < 0.3:
+            o['shared_ip'] = rng.random() < 0.5
+        if rng.random() < 0.3:
+            o['vring'] = {'cells': rng.sample(['c1', 'c2'], rng.randint(0, 2)),
+                          'rules': [{'pattern': p, 'endpoints': ['http']} for p in rng.sample(['p.*', 'q.*'], rng.randint(0, 2))]}
+    elif cname == 'CellAllocation':
+        o = dict(res, cell='c1', rank=rng.randint(0, 100), traits=rng.sample(['ssd', 'gpu'], rng.randint(0, 2)))
+        if rng.random() < 0.5:
+            o['partition'] = rng.choice(['_default', 'p1'])
+        if rng.random() < 0.6:
+            o['assignments'] = [{'pattern': p, 'priority': rng.randint(0, 100)}
+                                for p in rng.sample(['proid.a*', 'proid.b*', 'x.*'], rng.randint(0, 3))]
+    else:
+        o = dict(res, _id='p1')
+        if rng.random() < 0.5:
+            o['systems'] = rng.sample([1, 2, 30], rng.randint(0, 3))
+        if rng.random() < 0.5:
+            o['down-threshold'] = rng.randint(0, 10)
+        if rng.random() < 0.4:
+            o['data'] = {'b': 1, 'a': {'z': [1, 2], 'y': None}}
+        if rng.random() < 0.6:
+            o['limits'] = [dict(res, trait=t) for t in rng.sample(['ssd', 'gpu', 'x'], rng.randint(0, 3))]
+    return {'kind': 'ldap_obj', 'cls': cname, 'obj': o}
+
+
+def _wrap_rt(cname, o):
+    import copy
+    m = mod('treadmill.admin._ldap')
+    inst = getattr(m, cname)(None)
+    return inst.from_entry(m._remove_empty(inst.to_entry(copy.deepcopy(o))))
+
+
+def impl_ldap_obj(case):
+    once = call(_wrap_rt, case['cls'], case['obj'])
+    if once[0] != 'ok':
+        return {'once': once}
+    # the wrappers fill in defaults on the way in AND on the way out (ephemeral_ports {} -> {'tcp': 0, 'udp': 0}),
+    # so the normal form is reached after two round trips; it must be stable from then on
+    twice = call(_wrap_rt, case['cls'], once[1])
+    thrice = call(_wrap_rt, case['cls'], twice[1]) if twice[0] == 'ok' else twice
+    return {'once': ['ok', _jsonable(once[1])], 'idempotent': thrice[0] == 'ok' and strict_eq(thrice[1], twice[1]),
+            'kept': [k for k, v in case['obj'].items() if isinstance(v, (str, int, bool)) and
+                     not (k in once[1] and strict_eq(once[1][k], v))]}
+
+
+def oracle_ldap_obj(case, o):
+    if o['once'][0] != 'ok':
+        return ('ldap-object-roundtrip', '%s %r cannot be stored and read back: %s' % (case['cls'], case['obj'], o['once'][2]))
+    if o['kept'] or not o['idempotent']:
+        return ('ldap-object-roundtrip', '%s %r reads back as %r (scalar fields changed: %r, second round trip stable: %s)'
+                % (case['cls'], case['obj'], o['once'][1], o['kept'], o['idempotent']))
+    return None
+
+
 # ------------------------------------------------------------------ registry
 KINDS = {
     'basen': dict(gen=gen_basen, impl=impl_basen, flat=flat_basen, term=term_basen, oracle=oracle_basen,
@@ -1119,6 +1940,22 @@ KINDS = {
     'rule_dec': dict(gen=gen_rule_dec, impl=impl_rule_dec, flat=flat_rule_dec,
                      term=lambda c, o: '(CRuleDec %s)' % t_str(c['name']), oracle=oracle_rule_dec,
                      nontrivial=lambda c, o: bool(c['name']), weight=3),
+    'zk': dict(gen=gen_zk, impl=impl_zk, flat=flat_zk, term=term_zk, oracle=oracle_zk,
+               nontrivial=lambda c, o: c['data']['t'] == 'obj' and bool(c['data']['v']), weight=4),
+    'zk_dec': dict(gen=gen_zk_dec, impl=impl_zk_dec, flat=flat_zk_dec,
+                   term=lambda c, o: '(CZkDec %s)' % G.zlist(o['payload']), oracle=oracle_zk_dec,
+                   nontrivial=lambda c, o: bool(c['payload']), weight=3),
+    'ldap': dict(gen=gen_ldap, impl=impl_ldap, flat=flat_ldap,
+                 term=lambda c, o: '(CLdap %s %s)' % (t_str(_sname(c)), t_obj(c['obj'])), oracle=oracle_ldap,
+                 nontrivial=lambda c, o: bool(c['obj']), weight=4),
+    'ldap_dec': dict(gen=gen_ldap_dec, impl=impl_ldap_dec, flat=flat_ldap_dec,
+                     term=lambda c, o: '(CLdapDec %s %s)' % (t_str(_sname(c)), t_entry(c['entry'])),
+                     oracle=oracle_ldap_dec, nontrivial=lambda c, o: bool(c['entry']), weight=2),
+    'diff': dict(gen=gen_diff, impl=impl_diff, flat=flat_diff,
+                 term=lambda c, o: '(CDiff %s %s)' % (t_entry(c['old']), t_entry(c['new'])), oracle=oracle_diff,
+                 nontrivial=lambda c, o: bool(c['old']) and bool(c['new']), weight=3),
+    'ldap_obj': dict(gen=gen_ldap_obj, impl=impl_ldap_obj, flat=lambda c, o: None, term=lambda c, o: 'CNone',
+                     oracle=oracle_ldap_obj, nontrivial=lambda c, o: True, weight=1),
 }
 SCHEDULE = [k for k, d in KINDS.items() for _ in range(d['weight'])]
 
@@ -1158,39 +1995,75 @@ def _extra(_r, cases, obs):
         d['cases'] += 1
         d['malformed_stream'] += 1 if c.get('malformed') else 0
         d['errors'] += 1 if any(isinstance(v, list) and v and v[0] == 'err' for v in o.values()) else 0
-    return {'distribution': dist}
+    skipped = {}
+    for c, o in zip(cases, obs):
+        if expected(c, o) is None:
+            skipped[c['kind']] = skipped.get(c['kind'], 0) + 1
+    return {'distribution': dist, 'skipped_in_correspondence_by_kind': skipped,
+            'skipped_note': 'ldap_obj has no model (oracle only); the others are inputs outside a model (non-ASCII '
+                            'for regex/int(), floats, surrogate escapes, YAML fallback, non-terminating to_base_n)'}
 
 
 TRUSTED = [
-    'Coq 8.16.1 kernel (coqc); vm_compute for the table checks (C15_*_tables_ok), the Examples and refuted witnesses',
+    'Coq 8.16.1 kernel (coqc); vm_compute for the table checks (C15_*_tables_ok, C15_ldap_schemas_*), the Examples '
+    'and the refuted witness; no native_compute',
     'Print Assumptions: closed under the global context for every theorem of Props/C15.v',
-    'translator harness/tables_c15.py (module values and fail-closed AST pattern matching; format specs parsed and '
-    'cross-checked against str.format on a probe)',
+    'translator harness/tables_c15.py: module values (alphabets, patterns, regex .pattern text, enum member tables with '
+    '__slots__, LDAP schema tables) and fail-closed AST pattern matching (gen_uniqueid, _fmt_unique_name, app_name, '
+    'app_unique_id, publish, _path_trace_shard, _process_events); format specs parsed and cross-checked against '
+    'str.format on a probe',
     'hand-written models Codec/*.v of the codec functions, tied by differential execution (cases.v + vm_compute) '
-    'on structured and malformed streams',
-    'strings are lists of code points; Python str/int/format/rsplit/replace semantics written as definitions',
+    'on structured and malformed streams; flattening code of harness/props/c15.py and Codec/C15Run.v',
+    'modelled, not verified: strings are lists of code points; Python str.format / % / rsplit / split / join / replace '
+    '/ int() / str(int); re semantics of the three rule-file regexes (ASCII: \\w and \\d also accept non-ASCII in '
+    'Python - such names are skipped by the correspondence); json.dumps / json.loads on null, bool, int, str, list, '
+    'dict (floats, surrogate escapes and the YAML fallback on non-empty payloads are outside the model and skipped); '
+    'yaml.load(b"") is None; LDAP: create() stores _remove_empty(entry), modify = ADD / REPLACE / DELETE on '
+    'attribute value lists',
     'gen_uniqueid: os.stat supplied as data (inode, ctime in microseconds as an exact Fraction); float rounding of '
     'st_ctime * 10**6 is not modelled',
+    'event-node names: the real encoder is trace.app.zk.publish on a recording zkclient fake, the real decoder is '
+    'TraceLoop._process_events on a subclass that records _process_event arguments',
+    'NOT modelled (oracle only, kind ldap_obj): the per-class wrappers Application / CellAllocation / Partition '
+    '.to_entry / .from_entry (service restart defaults, ephemeral ports, affinity dict, vring, option-indexed lists '
+    '_to_obj_list / _group_entry_by_opt / _grouped_to_list_of_dict) - exercised on the real classes with a '
+    'stability + scalar-field-preservation oracle, no theorem',
 ]
 ASSUMPTIONS = [
     'base-N: alphabet without duplicate characters, 2 <= base <= len(alphabet), n >= 0 (for n < 0 or base 1 the '
     'Python loop does not terminate: modelled as an explicit error, excluded)',
     'unique names: instance name = base#inst with no # in base, no # and no - in inst; unique id without -; '
     'ids shorter than 13 are zero-padded by the encoder (round trip is to the padded id)',
+    'events: where is a string without ":"; why of scheduled events None or any string; why/uniqueid/state of the '
+    'other classes a string (None is the known finding event-why-none-decodes-as-empty-string); uniqueid of service '
+    'events without "."; rc/signal ints; is_oom bool; event types are enum member names (not other attributes of the '
+    'Enum class); node names: no "," (and no "/") in instance id, timestamp, host, type, data',
+    'rule files: chain [A-Za-z0-9_]{2,32}; proto tcp|udp; src/dst address the firewall.ANY_IP object itself or a '
+    'dotted quad of 1-3 ASCII digits (an equal but not identical "0.0.0.0/0" string is written as such and not '
+    'readable: outside the domain); ports 0..99999 with 0 = wildcard',
+    'ZooKeeper payloads: dict / list / int / bool objects over null, bool, int, str (code points < 0xD800), list, '
+    'dict with distinct str keys; a top-level str or bytes payload is stored raw and NOT covered (the str "123" reads '
+    'back as the int 123); None <-> empty payload',
+    'LDAP: object fields typed as their schema row (None allowed, int allowed in str fields); entries pass through '
+    '_remove_empty as in LdapObject.create; _diff_entries: distinct lower-case attribute names, values str or bool, '
+    'equality of values as sets',
 ]
 
 
 def run(tier, seed):
     core.standard_run(PID, tier, seed, {
-        'model_vos': ['Codec/C15Run', 'Gen/Tables'], 'table_sections': ['c15_names', 'c15_events', 'c15_rules'],
+        'model_vos': ['Codec/C15Run', 'Gen/Tables'], 'table_sections': ['c15_names', 'c15_events', 'c15_rules', 'c15_ldap'],
         'preamble': PREAMBLE, 'run_fn': RUN_FN, 'in_type': 'c15case',
         'gen_case': gen_case, 'impl_run': impl_run, 'expected': expected, 'case_term': case_term,
         'oracle': oracle, 'nontrivial': nontrivial,
-        'n_quick': 2800, 'n_thorough': 30000, 'search_quick': 4000, 'search_thorough': 100000,
+        'n_quick': 4500, 'n_thorough': 30000, 'search_quick': 4000, 'search_thorough': 100000,
         'corpus': 'c15.json',
-        'rule': 'seeded generator (one random.Random(seed)); kinds in a fixed weighted rotation; every case is drawn '
-                'from the malformed stream with probability 1/4 (inputs outside the stated domain, decoders fed '
-                'arbitrary strings); non-trivial = not the empty/zero/default object of its kind',
+        'rule': 'seeded generator (one random.Random(seed)); 20 case kinds (encode+decode and decode-only per codec: '
+                'base-N, gen_uniqueid, unique names, events, event nodes, rule files, ZooKeeper payloads, LDAP '
+                'entries, _diff_entries, LDAP class wrappers) in a fixed weighted rotation; every case is drawn from '
+                'the malformed stream with probability 1/4 (inputs outside the stated domain; decoders are fed '
+                'mutated and arbitrary strings); encode cases carry a second nearby value for the injectivity '
+                'oracle; non-trivial = not the empty/zero/default object of its kind',
         'trusted': TRUSTED, 'assumptions': ASSUMPTIONS, 'anchors': ANCHORS, 'extra': _extra,
     })
 
